@@ -148,7 +148,7 @@ Proof.
   - (* AClear: the lock is free, so no squeue is in flight *)
     destruct (cpc c j) eqn:Ej; try discriminate. destruct (clock c) eqn:El; try discriminate.
     inversion H; subst; clear H. pose proof (Hpc j) as Hj. rewrite Ej in Hj. simpl in Hj.
-    simpl. rewrite (proj2 (mem_In j (sched q)) Hj), Rlk. simpl.
+    simpl. rewrite Rlk. simpl.
     eexists. split; [reflexivity|]. constructor; simpl; auto.
     + intros x [X|[[X|X]|X]]; [apply Rsub; auto|subst; apply Rsub; auto|apply Rsub; auto|apply Rsub; auto].
     + intros k a0 _ Hk. destruct (Nat.eq_dec k j) as [->|Hne].
